@@ -47,7 +47,12 @@ fn run_site(site: usize, strength: u8, patterns: &[[u8; 4]], expect: &[[u8; 4]])
             img[at(p, k)] = pat[k];
         }
     }
-    let out = guard(|| deblock(&img, w, strength)).map_err(|e| format!("deblock({}x{}, strength {}) panicked: {}", w, h, strength, e))?;
+    // (the image sits at byte offset 0..7 of a larger buffer, varying with the call)
+    let off = (n + site * 3 + strength as usize) % 8;
+    let mut buf = vec![0x3Cu8; off];
+    buf.extend_from_slice(&img);
+    let view = &buf[off..];
+    let out = guard(|| deblock(view, w, strength)).map_err(|e| format!("deblock({}x{}, strength {}) panicked: {}", w, h, strength, e))?;
     if out.len() != img.len() {
         return Err(format!("output length {} != input length {}", out.len(), img.len()));
     }
@@ -406,7 +411,14 @@ fn image(w: usize, h: usize, family: u32, src: &mut dyn FnMut() -> u8) -> Vec<u8
 
 fn check_image(img: &[u8], w: usize, s: u8) -> Result<bool, String> {
     let h = img.len() / w;
-    let out = guard(|| deblock(img, w, s)).map_err(|p| format!("deblock({}x{}, strength {}) panicked: {}", w, h, s, p))?;
+    // the image is handed over as a sub-slice at byte offset 0..7 of a larger buffer (planes of
+    // packed frames; nothing promises a caller's slice any alignment)
+    let off = (w * 3 + h + s as usize) % 8;
+    let mut buf = vec![0xA5u8; off];
+    buf.extend_from_slice(img);
+    buf.extend_from_slice(&[0x5A; 5]);
+    let view = &buf[off..off + img.len()];
+    let out = guard(|| deblock(view, w, s)).map_err(|p| format!("deblock({}x{}, strength {}, input at byte offset {} of its buffer) panicked: {}", w, h, s, off, p))?;
     let want = deblock_ref(img, w, s);
     if out.len() != want.len() {
         return Err(format!("{}x{}: output length {} != {}", w, h, out.len(), want.len()));
